@@ -1707,3 +1707,40 @@ Proof.
 Qed.
 
 End Prefix.
+
+(* ------------------------------------------------------------------------------------------ *)
+(* 11. the rule that is FALSE: ending-backtracking removal inside a balancing group              *)
+(* ------------------------------------------------------------------------------------------ *)
+
+(* concrete environments for the witnesses and the Examples of Properties/C05.v:
+   text [t], sets: 0 = [ab], 1 = [bc], 2 = \w (a-z here); no case folding *)
+Definition rw_ex_env (t : list Z) : env :=
+  {| txt := t; tstart := 0; ecma := false; endz_strict := false;
+     set_in := fun id x => if id =? 0 then (97 <=? x) && (x <=? 98)
+                           else if id =? 1 then (98 <=? x) && (x <=? 99)
+                           else (97 <=? x) && (x <=? 122);
+     lower := fun x => x;
+     is_word := fun x => (97 <=? x) && (x <=? 122);
+     is_eword := fun x => (97 <=? x) && (x <=? 122) |}.
+Definition rw_s0 : st := {| pos := 0; caps := [] |}.
+
+(* (?<1-2>x|(?<2>x)) on "x": the alternation x|(?<2>x) and its atomic wrapping have the same FIRST
+   result, but under the balancing capture (close fails while group 2 is empty, and the matcher
+   backtracks into the alternation) the first results differ: one match vs none.
+   The engine agrees (pattern `(?<a-b>x|(?<b>x))` on "x": no match with the rewrite, a match without). *)
+Definition rw_bal_alt : node := NAlternate 0 [NChar COne 0 120; NCapture 0 2 (-1) (NChar COne 0 120)].
+
+Theorem rw_capture_balancing_not_heq :
+  exists e t t', rw_heq e t t' /\ ~ rw_hrefines e (NCapture 0 1 2 t) (NCapture 0 1 2 t').
+Proof.
+  exists (rw_ex_env [120]), rw_bal_alt, (NAtomic rw_bal_alt). split; [apply rw_heq_sym, atomic_heq|].
+  intros H.
+  assert (H1 : rw_evals (rw_ex_env [120]) (NCapture 0 1 2 rw_bal_alt) rw_s0
+                 [{| pos := 1; caps := [(2, []); (1, [(0, 1)])] |}]) by (exists 5%nat; vm_compute; reflexivity).
+  assert (H2 : rw_evals (rw_ex_env [120]) (NCapture 0 1 2 (NAtomic rw_bal_alt)) rw_s0 [])
+    by (exists 5%nat; vm_compute; reflexivity).
+  apply H in H1 as (l' & Hl' & E). rewrite (rw_evals_det _ _ _ _ _ Hl' H2) in E. discriminate.
+Qed.
+
+(* readable view of a result list for the Examples: the end positions, in priority order *)
+Definition rw_positions (r : res (list st)) : list Z := match r with Ok l => map pos l | _ => [-1] end.
